@@ -129,6 +129,9 @@ type vhit struct {
 // capableOnly: open the handle as filter-capable (requiresFiltering=true) but run an unfiltered Search
 var capableOnly bool
 
+// callerBitmap, when set, is the one exclusion bitmap object a caller reuses for all its opens
+var callerBitmap *roaring.Bitmap
+
 func runSearch(vs segment.VectorSegment, field string, q []float32, k int64, except []uint64, exceptNil bool, eligible []uint64, filtered bool) (hits []vhit, bad string) {
 	defer func() {
 		if r := recover(); r != nil {
@@ -138,6 +141,12 @@ func runSearch(vs segment.VectorSegment, field string, q []float32, k int64, exc
 	var ex *roaring.Bitmap
 	if !exceptNil {
 		ex = bitmapOf(except)
+		if callerBitmap != nil {
+			// the caller keeps ONE bitmap object and updates it in place between its opens
+			callerBitmap.Clear()
+			callerBitmap.AddMany(ex.ToArray())
+			ex = callerBitmap
+		}
 	}
 	vi, err := vs.InterpretVectorIndex(field, filtered || capableOnly, ex)
 	if err != nil {
@@ -288,6 +297,12 @@ func (s statsSink) Fetch() map[string]map[string]uint64 { return s }
 
 // vectorQueries runs a set of searches on one segment against the spec.
 func vectorQueries(c *ctx, seg segment.Segment, vspec sx.V, ndocs uint64, o vecOpts, nq int, what string) string {
+	return vectorQueriesOn(c, seg, vspec, ndocs, o, nq, what, "")
+}
+
+// vectorQueriesOn: as vectorQueries; a non-empty `only` makes most queries address that field (whether
+// or not the segment has vectors for it)
+func vectorQueriesOn(c *ctx, seg segment.Segment, vspec sx.V, ndocs uint64, o vecOpts, nq int, what string, only string) string {
 	vecReuse, halfReadIt = true, nil
 	defer func() { vecReuse, halfReadIt = false, nil }()
 	vs, ok := seg.(segment.VectorSegment)
@@ -311,6 +326,9 @@ func vectorQueries(c *ctx, seg segment.Segment, vspec sx.V, ndocs uint64, o vecO
 		}
 		if c.R.Chance(14) {
 			field = "body"
+		}
+		if only != "" && !c.R.Chance(6) {
+			field = only
 		}
 		vf, has := vfieldOf(vspec, field)
 		dims := o.dims[field]
@@ -507,6 +525,66 @@ func largeVectorMerge(c *ctx) string {
 	// a second generation: the >= 1000-vector output (vectors not of unit length, compressed index
 	// class) is merged again; its vectors must come through unchanged
 	return largeVectorMergeP(c, 620, 590, 7, 3, "dot_product", "memory-efficient", true)
+}
+
+// namedVectorMerge: vector fields with unusual but legal names (leading underscore, dots, upper
+// case, digits first) merged and merged again.
+func namedVectorMerge(c *ctx) string {
+	for _, name := range []string{"_vec", "_emb.v1", "Vec", "0vec", "vec_2"} {
+		o := genVecOpts(c)
+		o.nVecFs = 0
+		o.dims[name], o.sim[name], o.opt[name] = 3, "l2_norm", "recall"
+		mk := func(id string, n int) (*segEnt, sx.V, error) {
+			var b zh.Batch
+			for d := 0; d < n; d++ {
+				b = append(b, zh.Doc{Fields: []zh.Field{zh.IDField(fmt.Sprintf("%s%02d", id, d)),
+					{Name: name, Typ: 'v', Vec: &zh.VecDef{Dims: 3, Sim: "l2_norm", Opt: "recall", Data: randVec(c, 3)}}}})
+			}
+			e, err := newBuilt(c, b, 1026, c.R.Bool())
+			if err != nil {
+				return nil, sx.V{}, err
+			}
+			return e, vecSpec(c, b), nil
+		}
+		e1, v1, err := mk("p", 5)
+		must(err)
+		e2, v2, err := mk("q", 4)
+		must(err)
+		mc := &mergeCase{ins: []*segEnt{e1, e2}, drops: [][]uint64{{1}, nil}, nilBM: []bool{false, true}, mode: 1026}
+		spec, maps := specMerge(c, mc)
+		mv := ask(c, sx.L(sx.N(zh.ReqMergeVec), sx.L(v1, v2), maps))
+		if _, bad := sx.IsErr(mv); bad {
+			mustH(fmt.Errorf("model rejected merge_vfields"))
+		}
+		r := runMerge(c, mc)
+		if r.err != nil || r.seg == nil {
+			return fmt.Sprintf("merge of two segments with a vector field named %q failed: %v", name, r.err)
+		}
+		c.Case("named-vector-merge-"+name, true)
+		c.Count("merges_of_vector_fields_with_unusual_names")
+		what := fmt.Sprintf("merge of 5 + 4 documents with a vector field named %q, one deletion, re-opened", name)
+		bad := vectorQueriesOn(c, r.seg, mv, spec.L[pNDocs].N, o, 10, what, name)
+		if bad == "" {
+			e3 := &segEnt{seg: r.seg, spec: spec, n: spec.L[pNDocs].N, prov: "merged", depth: 1}
+			mc2 := &mergeCase{ins: []*segEnt{e3}, drops: [][]uint64{{0}}, nilBM: []bool{false}, mode: 1026}
+			spec2, maps2 := specMerge(c, mc2)
+			mv2 := ask(c, sx.L(sx.N(zh.ReqMergeVec), sx.L(mv), maps2))
+			r2 := runMerge(c, mc2)
+			if r2.err != nil || r2.seg == nil {
+				bad = fmt.Sprintf("second-generation merge failed: %v", r2.err)
+			} else {
+				bad = vectorQueriesOn(c, r2.seg, mv2, spec2.L[pNDocs].N, o, 10, what+", merged again with one more deletion", name)
+				r2.seg.Close()
+			}
+		}
+		r.seg.Close()
+		e1.close()
+		e2.close()
+		if bad != "" {
+			return bad
+		}
+	}
+	return ""
 }
 
 func largeVectorMergeP(c *ctx, n1, n2, nd1, nd2 int, sim, opt string, remerge bool) string {
@@ -734,6 +812,10 @@ func checkC15(c *ctx) {
 	c.Rule = "merge chains (depth <= 3) over segments with vector fields (fields present in only some inputs, inputs whose vectors are all deleted, as many deleted documents as the field has vectors, built / opened / merged inputs; merges of 600+600 documents with 1190 survivors, of 700+500 documents with 800 survivors (inputs above, output below the exact-index limit of 1000), and a dot_product/memory-efficient 620+590 merge whose output is merged again) x deletion bitmaps {nil, empty, random, all}; the merged, re-opened segment is searched (exhaustive k and small k, with exclusions and filters) against the extracted merge_vfields (survivors' vectors under the new numbering); num_vectors statistic; a field whose vectors all died must have no index; engine accounting (every index created is released); non-trivial = >= 2 inputs with vectors and >= 2 surviving vectors"
 	c.Assumptions = append(c.Assumptions, "stand-in engine (see C14)")
 	if bad := largeVectorMerge(c); bad != "" {
+		c.Violation("C15 "+bad, false)
+		return
+	}
+	if bad := namedVectorMerge(c); bad != "" {
 		c.Violation("C15 "+bad, false)
 		return
 	}
